@@ -3,8 +3,8 @@ import os
 from oblib import ob
 
 _COMMON = (
-    "jsontext only. depth: concrete towers open^a hole close^a with a in %s, shapes '[' / '{\"\":' / alternating, hole = %s symbolic bytes of the structural "
-    "alphabet { } [ ] : , \" a 1 space (so the innermost value, an extra level, or garbage), through ReadToken loop, ReadValue, SkipValue, Value.IsValid, "
+    "jsontext, plus Marshal of 9999/10000 nested []any / map[string]any around 7 leaves (package json, on the engine's reflect model). depth: concrete towers open^a hole close^a with a in %s, shapes '[' / '{\"\":' / alternating, hole = %s symbolic bytes of the structural "
+    "alphabet { } [ ] : , \" a 1 space (so the innermost value, an extra level, or garbage), also with the concrete innermost values 0, {} and [] (empty containers at exactly 10000 and 10001), through ReadToken loop, ReadValue, SkipValue, Value.IsValid, "
     "a/2 levels by tokens then ReadValue/SkipValue, Value.Format, Value.Compact, AppendFormat, Encoder.WriteValue, a/2 levels by WriteToken then WriteValue of the rest, "
     "and a WriteToken pushes followed by one of 7 calls: accepted iff the reference grammar with depth limit 10000 accepts (so 10000 accepted, 10001 refused with a "
     "*SyntacticError), no panic, refused call leaves depth unchanged. total: Token accessors (Kind, String, Clone, Bool, Int, Uint, Float, Float32) on the first/later token of "
@@ -15,7 +15,7 @@ _COMMON = (
     "ParseFloat takes the Eisel-Lemire/overflow path (engine fault, see ASSUMPTIONS), wall-clock termination (only the step budget), depths other than those listed, AppendFloat bit sizes.")
 BOUNDS = {
     "quick": _COMMON % ("{10000, 10001}", "0 or 1 (1 only for arrays at a=10000)", "2 (3 over a 24-letter alphabet)", "2"),
-    "thorough": _COMMON % ("9997..10002 (9998..10002 for values, 10000..10001 with a 1-byte hole, 10000 with a 2-byte hole)", "0, 1 or 2", "3 (4 over a 24-letter alphabet)", "3"),
+    "thorough": _COMMON % ("9997..10002 (9998..10002 for values, 10000..10001 with a 1-byte hole, 10000 arrays only with a 2-byte hole)", "0, 1 or 2", "3 (4 over a 24-letter alphabet)", "3"),
 }
 ASSUMPTIONS = [
     "reference verdict for a tower = zzspec.ValidText on its innermost level with the limit reduced by the a-1 enclosing levels (every enclosing level wraps exactly one value); "
@@ -46,11 +46,24 @@ def obligations(tier):
         else:
             for d in (False, True):
                 L.append(ob("depth/%s/ops=all/shapes=all/a=9998..10002/inner=0/hole=0/dup=%d/fullref" % (tag, d), P, fn, [-1, -1, 9998, 10002, "0", 0, d, True], step_limit=BIG, max_seconds=2400, covers=cov([0, 1, 2])))
-                L.append(ob("depth/%s/ops=all/shapes=all/a=10000..10001/inner=/hole=1/dup=%d" % (tag, d), P, fn, [-1, -1, 10000, 10001, "", 1, d, False], step_limit=BIG, max_seconds=2400, covers=cov([0, 1, 2], True, True)))
+            L.append(ob("depth/%s/ops=all/shapes=all/a=10000..10001/inner=/hole=1/dup=0" % tag, P, fn, [-1, -1, 10000, 10001, "", 1, False, False], step_limit=BIG, max_seconds=2400, covers=cov([0, 1, 2], True, True)))
             L.append(ob("depth/%s/ops=all/shape=arr/a=9999..10001/inner=/hole=0/fullref" % tag, P, fn, [-1, 0, 9999, 10001, "", 0, False, True], step_limit=BIG, max_seconds=2400, covers=cov([0])))
-            for sh in (0, 1):
+            for sh in (0,):
                 L.append(ob("depth/%s/ops=all/shape=%s/a=10000/inner=/hole=2" % (tag, SH[sh]), P, fn, [-1, sh, 10000, 10000, "", 2, False, False], step_limit=BIG, max_seconds=2400, covers=cov([sh], True, True)))
             L.append(ob("depth/%s/ops=all/shape=mix2/a=9999..10001/inner=\"a\"/hole=0/fullref" % tag, P, fn, [-1, 3, 9999, 10001, '"a"', 0, False, True], step_limit=BIG, max_seconds=2400, covers=cov([3])))
+    # empty object / empty array as the innermost value: total depth a+1, i.e. exactly 10000 and 10001
+    for fn, tag in (("VerifC20DepthRead", "read"), ("VerifC20DepthFormat", "format")):
+        for inner in ("{}", "[]"):
+            if q and tag == "read" and inner == "[]":
+                continue
+            L.append(ob("depth/%s/ops=all/shapes=%s/a=9999..10000/inner=%s/hole=0" % (tag, ("arr" if inner == "[]" else "obj") if q else "all", inner), P, fn,
+                        [-1, -1 if not q else (0 if inner == "[]" else 1), 9999, 10000, inner, 0, False, False], step_limit=BIG, max_seconds=2400,
+                        covers=cov([0, 1, 2] if not q else ([0] if inner == "[]" else [1]))))
+    # ---- marshaling deeply nested Go values (package json, reflect environment model of the engine)
+    for depth in (9999, 10000):
+        for maps in (False, True):
+            L.append(ob("marshal-depth/%d/maps=%d" % (depth, maps), ".", "VerifC20MarshalDepth", [depth, maps],
+                        covers=["within-limit"] + (["beyond-limit"] if depth == 10000 else []), step_limit=BIG, max_seconds=900))
     # ---- depth: WriteToken pushes then one call
     if q:
         L.append(ob("depth/write/shapes=all/a=10000..10001", P, "VerifC20DepthWrite", [-1, 10000, 10001, False], step_limit=BIG, max_seconds=2400, covers=["call-accepted", "call-refused", "push-refused"]))
@@ -76,6 +89,8 @@ def obligations(tier):
     for n in ([1, 2] if q else [1, 2, 3]):
         for pre in (False, True):
             L.append(ob("total/indent/n=%d/prefix=%d" % (n, pre), P, "VerifC20Indent", [n, pre], covers=["panics", "accepted"]))
+    for wk in (0, 1):
+        L.append(ob("nopanic/stack-pointer-after-mid-value-flush/w=%d" % wk, P, "VerifC20FlushPointer", [wk, 40], covers=["end", "flushed-mid-value"]))
     L.append(ob("total/reset-misuse", P, "VerifC20ResetMisuse", [], covers=["end"]))
     if only:
         L = [o for o in L if only in o["id"]]
